@@ -6,19 +6,24 @@ sequences of textdocument_file_request.go; the analysis result of every event is
 harness feeds the model the error maps the real server computed (read through a verif hook) and
 compares the model's client view with the folded stream of real publishDiagnostics notifications;
 separately it compares that view with a freshly started server.
-Proved here, for ALL states, files, error maps:
- * `pushAll_file`: after a full re-publish, every file without an unsaved-error entry shows exactly
-   what a fresh server would publish for the new map — provided equal-looking lists are equal
-   (`Faithful`), which always holds since IsSameErrList also compares related information and the
-   entry file (`sameErrs_eq`, `faithful`; repair of finding K2);
- * `settled_*`: the settled states (no unsaved errors, client = fresh view) are closed under
-   save / watched-files / open / close;
- * `change_*`: from a settled state an edit shows the buffer's syntax errors, or the saved
-   non-syntax diagnostics when it has none;  `edit_save_cycle`: edit-then-save is settled again;
- * `dirty_view_overridden` (finding K1): a full re-publish triggered by ANOTHER file replaces the
-   syntax errors of a still-unsaved buffer by saved diagnostics;
- * `*_fresh`: the unconditional forms;  `extra_republished` / `stale_extra_before`: finding K2 (a list that
-   differs only in related information was not re-published), repaired.
+
+What the client is to hold for a file (`view`): the syntax errors of its unsaved buffer when that has
+any; the saved diagnostics without the syntax errors while an unsaved buffer parses cleanly; else the
+saved diagnostics, i.e. what a freshly started server publishes (`shown`).
+
+Proved here, for ALL states, files, error maps and ALL histories:
+ * `history_consistent`: along every history of didOpen / didChange / didSave / didClose /
+   didChangeWatchedFiles events (didOpen only for a document that is not open), whatever error maps the
+   analyses deliver, the client holds exactly `view` for EVERY file after EVERY event — also for files
+   with unsaved edits while other files are saved or change on disk (that was finding K1, repaired:
+   `dirty_view_kept`, and `dirty_view_overridden_before` for the code as it was);
+ * `fresh_when_settled`: once no buffer is unsaved, that is the view of a freshly started server
+   (`init_settled`);  `closed_is_clean`: didClose leaves no unsaved entry, so a conformant client's
+   didOpen meets the premise of `history_consistent` (`conformant_history_consistent`);
+ * `sameErrs_eq` / `faithful`: IsSameErrList is exact since it also compares related information and
+   the entry file (repair of finding K2; `extra_republished` / `stale_extra_before`);
+ * `handler_call_shape` / `manager_shape`: the call sequences and map updates the model is written
+   after are the ones in /repo now (regenerated on every run).
 -/
 import LuaHelper.Model.Diag
 import LuaHelper.Gen.Shapes
@@ -28,15 +33,34 @@ open LuaHelper.Diag
 /-- the handler sequences the model's `ev*` functions are written after, as they stand in /repo now
     (regenerated on every run): which bookkeeping methods each document / file handler calls, in order.
     didClose restores the saved diagnostics with SaveOneFilePushAgain (repair aa13bc7); didOpen treats a text
-    that differs from the file like an unsaved edit (repair ce0b3a3, `evOpenWith`). -/
+    that differs from the file like an unsaved edit (repair ce0b3a3, `evOpenWith`); didChangeWatchedFiles no
+    longer drops the unsaved-error entries of the announced files (repair of K1). -/
 theorem handler_call_shape :
     Gen.bookkeepingCalls =
       [("TextDocumentDidOpen", ["pushAllDiagnosticsAgain", "InsertChangeFileErr", "ClearFileSyntaxErr", "ClearChangeFileErr"]),
        ("TextDocumentDidChange", ["InsertChangeFileErr", "ClearChangeFileErr", "ClearFileSyntaxErr"]),
-       ("WorkspaceChangeWatchedFiles", ["ClearChangeFileErr", "pushAllDiagnosticsAgain"]),
+       ("WorkspaceChangeWatchedFiles", ["pushAllDiagnosticsAgain"]),
        ("TextDocumentDidClose", ["SaveOneFilePushAgain", "ClearOneFileDiagnostic", "RemoveFile"]),
        ("TextDocumentDidSave", ["SaveOneFilePushAgain", "pushAllDiagnosticsAgain", "SaveOneFilePushAgain"])] := by decide
 #print axioms handler_call_shape
+
+/-- the bookkeeping methods themselves, as they stand in /repo now: the updates of the three maps and the calls,
+    each with its if/for nesting depth (0 = unconditional).  `pushAllDiagnosticsAgain` ends with an UNCONDITIONAL
+    `pushAllChangeFileDiagnosticErr` (`Diag.pushAll`), whose two loops are `rechangeStep` and `rehideStep`;
+    InsertChangeFileErr / SaveOneFilePushAgain / ClearFileSyntaxErr maintain `fileHideSyntaxMap` (`hidden`). -/
+theorem manager_shape :
+    Gen.managerOps =
+      [("pushAllDiagnosticsAgain", ["call:getAllProject@0", "call:ClearOneFileDiagnostic@2", "call:pushFileErrList@2",
+          "call:pushFileErrList@1", "assign:fileErrorMap@0", "call:pushAllChangeFileDiagnosticErr@0"]),
+       ("pushAllChangeFileDiagnosticErr", ["call:ClearOneFileDiagnostic@1", "call:pushFileChangeDiagnostic@1",
+          "call:ClearOneFileDiagnostic@1", "call:pushFileDiagnostic@1"]),
+       ("InsertChangeFileErr", ["set:fileChangeErrorMap@0", "del:fileHideSyntaxMap@0", "call:pushFileChangeDiagnostic@0"]),
+       ("ClearChangeFileErr", ["del:fileChangeErrorMap@1", "call:ClearOneFileDiagnostic@1", "call:pushFileDiagnostic@1"]),
+       ("SaveOneFilePushAgain", ["del:fileChangeErrorMap@0", "del:fileHideSyntaxMap@0", "call:pushFileDiagnostic@1",
+          "call:ClearOneFileDiagnostic@1"]),
+       ("ClearFileSyntaxErr", ["set:fileHideSyntaxMap@0", "call:ClearOneFileDiagnostic@0", "call:pushFileDiagnostic@0"])] := by
+  decide
+#print axioms manager_shape
 
 /-! ### association-list facts -/
 
@@ -89,17 +113,18 @@ theorem publish_client (s : St) (f g : File) (e : List Err) :
     (publish s f e).client g = if g == f then e else s.client g := rfl
 theorem publish_saved (s : St) (f : File) (e : List Err) : (publish s f e).saved = s.saved := rfl
 theorem publish_change (s : St) (f : File) (e : List Err) : (publish s f e).change = s.change := rfl
+theorem publish_hidden (s : St) (f : File) (e : List Err) : (publish s f e).hidden = s.hidden := rfl
 
 theorem clearStep_fields (new : EMap) (s : St) (p : File × List Err) :
-    (clearStep new s p).saved = s.saved ∧ (clearStep new s p).change = s.change := by
-  unfold clearStep; split <;> exact ⟨rfl, rfl⟩
+    (clearStep new s p).saved = s.saved ∧ (clearStep new s p).change = s.change ∧ (clearStep new s p).hidden = s.hidden := by
+  unfold clearStep; split <;> exact ⟨rfl, rfl, rfl⟩
 
 theorem pushStep_fields (old : EMap) (s : St) (p : File × List Err) :
-    (pushStep old s p).saved = s.saved ∧ (pushStep old s p).change = s.change := by
+    (pushStep old s p).saved = s.saved ∧ (pushStep old s p).change = s.change ∧ (pushStep old s p).hidden = s.hidden := by
   unfold pushStep
   split
-  · exact ⟨rfl, rfl⟩
-  · split <;> exact ⟨rfl, rfl⟩
+  · exact ⟨rfl, rfl, rfl⟩
+  · split <;> exact ⟨rfl, rfl, rfl⟩
 
 theorem clearStep_client (new : EMap) (s : St) (p : File × List Err) (f : File) :
     (clearStep new s p).client f = if (p.1 == f && (lk new p.1).isNone) then [] else s.client f := by
@@ -137,24 +162,26 @@ theorem pushStep_client_eq (old : EMap) (s : St) (p : File × List Err) :
 /-! ### folds -/
 
 theorem clear_fold_fields (new l : EMap) (s : St) :
-    (l.foldl (clearStep new) s).saved = s.saved ∧ (l.foldl (clearStep new) s).change = s.change := by
+    (l.foldl (clearStep new) s).saved = s.saved ∧ (l.foldl (clearStep new) s).change = s.change ∧
+    (l.foldl (clearStep new) s).hidden = s.hidden := by
   induction l generalizing s with
-  | nil => exact ⟨rfl, rfl⟩
+  | nil => exact ⟨rfl, rfl, rfl⟩
   | cons p r ih =>
     simp only [List.foldl]
-    obtain ⟨a, b⟩ := ih (clearStep new s p)
-    obtain ⟨c, d⟩ := clearStep_fields new s p
-    exact ⟨a.trans c, b.trans d⟩
+    obtain ⟨a, b, b'⟩ := ih (clearStep new s p)
+    obtain ⟨c, d, d'⟩ := clearStep_fields new s p
+    exact ⟨a.trans c, b.trans d, b'.trans d'⟩
 
 theorem push_fold_fields (old l : EMap) (s : St) :
-    (l.foldl (pushStep old) s).saved = s.saved ∧ (l.foldl (pushStep old) s).change = s.change := by
+    (l.foldl (pushStep old) s).saved = s.saved ∧ (l.foldl (pushStep old) s).change = s.change ∧
+    (l.foldl (pushStep old) s).hidden = s.hidden := by
   induction l generalizing s with
-  | nil => exact ⟨rfl, rfl⟩
+  | nil => exact ⟨rfl, rfl, rfl⟩
   | cons p r ih =>
     simp only [List.foldl]
-    obtain ⟨a, b⟩ := ih (pushStep old s p)
-    obtain ⟨c, d⟩ := pushStep_fields old s p
-    exact ⟨a.trans c, b.trans d⟩
+    obtain ⟨a, b, b'⟩ := ih (pushStep old s p)
+    obtain ⟨c, d, d'⟩ := pushStep_fields old s p
+    exact ⟨a.trans c, b.trans d, b'.trans d'⟩
 
 theorem clear_fold_client (new l : EMap) (s : St) (f : File) :
     (l.foldl (clearStep new) s).client f = if (hasKey l f && (lk new f).isNone) then [] else s.client f := by
@@ -205,30 +232,7 @@ theorem push_fold_client (old l : EMap) (hn : NodupKeys l) (s : St) (f : File) :
       simp only [e1, Bool.false_eq_true, if_false]
       rw [pushStep_client_ne old s p f hp]
 
-theorem rechange_fold (l : EMap) (t : St) :
-    (l.foldl rechangeStep t).saved = t.saved ∧
-    ∀ f, hasKey l f = false → (l.foldl rechangeStep t).client f = t.client f := by
-  induction l generalizing t with
-  | nil => exact ⟨rfl, fun _ _ => rfl⟩
-  | cons p r ih =>
-    simp only [List.foldl]
-    obtain ⟨a, b⟩ := ih (rechangeStep t p)
-    refine ⟨a, ?_⟩
-    intro f hf
-    rw [hasKey_cons] at hf
-    simp only [Bool.or_eq_false_iff] at hf
-    rw [b f hf.2]
-    have e2 : (f == p.1) = false := by
-      have := hf.1; simp at this ⊢; exact fun h => this h.symm
-    unfold rechangeStep
-    simp [publish_client, e2]
-
-theorem rechange_fold_change (l : EMap) (t : St) : (l.foldl rechangeStep t).change = t.change := by
-  induction l generalizing t with
-  | nil => rfl
-  | cons p r ih => simp only [List.foldl]; rw [ih]; rfl
-
-/-! ### the full re-publish -/
+/-! ### IsSameErrList -/
 
 /-- lists that look the same to IsSameErrList are the same (false when only related information differs) -/
 def Faithful (old new : EMap) : Prop :=
@@ -259,175 +263,726 @@ theorem sameErrs_refl (a : List Err) : sameErrs a a = true := by unfold sameErrs
 theorem faithful (old new : EMap) : Faithful old new := fun _ o e _ _ h => sameErrs_eq o e h
 #print axioms faithful
 
-theorem pushAll_saved (s : St) (new : EMap) : (pushAll s new).saved = new := by
-  unfold pushAll
-  simp only
-  split
-  · rw [(rechange_fold _ _).1]
-  · rfl
 
-theorem pushAll_change (s : St) (new : EMap) : ∀ f, hasKey (pushAll s new).change f = hasKey s.change f := by
-  intro f
-  have hc : ({ (new.foldl (pushStep s.saved) (s.saved.foldl (clearStep new) s)) with saved := new } : St).change = s.change := by
-    show (new.foldl (pushStep s.saved) (s.saved.foldl (clearStep new) s)).change = s.change
-    rw [(push_fold_fields _ _ _).2, (clear_fold_fields _ _ _).2]
-  unfold pushAll
-  simp only
-  split
-  · have : ∀ (l : EMap) (t : St), (l.foldl rechangeStep t).change = t.change := by
-      intro l; induction l with
-      | nil => intro t; rfl
-      | cons p r ih => intro t; simp only [List.foldl]; rw [ih]; rfl
-    rw [this, hc]
-  · rw [hc]
+/-! ### more association-list facts -/
 
-/-- after a full re-publish a file without unsaved-error entry shows the fresh view of the new map -/
-theorem pushAll_file (s : St) (new : EMap) (hn : NodupKeys new) (hf : Faithful s.saved new) (f : File)
-    (hc : s.client f = shown s.saved f) (hd : hasKey s.change f = false) :
-    (pushAll s new).client f = shown new f := by
-  have main : (new.foldl (pushStep s.saved) (s.saved.foldl (clearStep new) s)).client f = shown new f := by
-    rw [push_fold_client s.saved new hn, clear_fold_client]
-    unfold shown at hc ⊢
-    cases hnew : lk new f with
-    | none =>
-      simp only [Option.isNone_none, Bool.and_true, Option.getD_none]
-      cases hk : hasKey s.saved f
-      · have : lk s.saved f = none := (lk_none_iff _ _).mpr hk
-        simp [hc, this]
-      · simp
-    | some e =>
-      simp only [Option.isNone_some, Bool.and_false, Option.getD_some]
-      cases hold : lk s.saved f with
-      | none => simp
-      | some o =>
-        by_cases hs : sameErrs o e = true
-        · have := hf f o e hold hnew hs
-          simp [hs, hc, hold, this]
-        · simp [hs]
-  have hch : (new.foldl (pushStep s.saved) (s.saved.foldl (clearStep new) s)).change = s.change := by
-    rw [(push_fold_fields _ _ _).2, (clear_fold_fields _ _ _).2]
-  unfold pushAll
-  simp only
-  split
-  · rw [(rechange_fold _ _).2 f (by rw [hch]; exact hd)]
-    exact main
-  · exact main
-#print axioms pushAll_file
+theorem lk_ins (m : EMap) (f g : File) (e : List Err) : lk (ins m f e) g = if g == f then some e else lk m g := by
+  unfold ins
+  rw [lk_cons, lk_del]
+  by_cases hg : g = f
+  · subst hg; simp
+  · have e1 : (f == g) = false := by simpa using fun h => hg h.symm
+    have e2 : (g == f) = false := by simpa using hg
+    simp [e1, e2]
 
+theorem hasKey_del (m : EMap) (f g : File) : hasKey (del m f) g = (g != f && hasKey m g) := by
+  have h1 := lk_del m f g
+  by_cases hg : g = f
+  · subst hg
+    have : lk (del m g) g = none := by rw [h1]; simp
+    rw [(lk_none_iff _ _).mp this]; simp
+  · have e2 : (g == f) = false := by simpa using hg
+    rw [e2] at h1
+    simp only [Bool.false_eq_true, if_false] at h1
+    have e3 : (g != f) = true := by simpa using hg
+    rw [e3, Bool.true_and]
+    cases hk : hasKey m g
+    · have := (lk_none_iff m g).mpr hk
+      rw [this] at h1
+      exact (lk_none_iff _ _).mp h1
+    · cases hd : hasKey (del m f) g
+      · have := (lk_none_iff _ _).mpr hd
+        rw [this] at h1
+        have := (lk_none_iff m g).mp h1.symm
+        rw [hk] at this; cases this
+      · rfl
 
-/-! ### settled states and the handlers -/
+theorem nodup_del (m : EMap) (f : File) (h : NodupKeys m) : NodupKeys (del m f) := by
+  unfold NodupKeys del at *
+  exact List.Nodup.sublist (List.Sublist.map _ List.filter_sublist) h
 
-/-- no unsaved-error entries, and the client holds exactly what a fresh server publishes for `saved` -/
-def Settled (s : St) : Prop := s.change = [] ∧ ∀ f, s.client f = shown s.saved f
+theorem nodup_ins (m : EMap) (f : File) (e : List Err) (h : NodupKeys m) : NodupKeys (ins m f e) := by
+  have hd := nodup_del m f h
+  unfold ins
+  unfold NodupKeys at *
+  simp only [List.map, List.nodup_cons]
+  refine ⟨?_, hd⟩
+  intro hmem
+  obtain ⟨q, hq, hqf⟩ := List.mem_map.mp hmem
+  have hk : hasKey (del m f) f = true := by
+    unfold hasKey
+    exact List.any_eq_true.mpr ⟨q, hq, by simp [hqf]⟩
+  rw [hasKey_del] at hk
+  simp at hk
 
-theorem hasKey_nil (f : File) : hasKey [] f = false := rfl
+theorem nonSyntax_nil : nonSyntax [] = [] := rfl
 
-theorem pushAll_settled (s : St) (new : EMap) (hs : Settled s) (hn : NodupKeys new) (hf : Faithful s.saved new) :
-    Settled (pushAll s new) ∧ (pushAll s new).saved = new := by
-  refine ⟨⟨?_, ?_⟩, pushAll_saved s new⟩
-  · -- change stays empty
-    have hc : (new.foldl (pushStep s.saved) (s.saved.foldl (clearStep new) s)).change = [] := by
-      rw [(push_fold_fields _ _ _).2, (clear_fold_fields _ _ _).2]; exact hs.1
-    unfold pushAll
+theorem shown_eq (m : EMap) (f : File) : shown m f = (match lk m f with | some e => e | none => []) := by
+  unfold shown; cases lk m f <;> rfl
+
+/-! ### the view a client is to hold, and frames -/
+
+/-- what the client is to hold for a file: the syntax errors of its unsaved buffer when that has any; the saved
+    diagnostics without the syntax errors while an unsaved buffer parses cleanly; else the saved diagnostics —
+    what a freshly started server publishes -/
+def view (s : St) (f : File) : List Err :=
+  match lk s.change f with
+  | some e => e
+  | none => if f ∈ s.hidden then nonSyntax (shown s.saved f) else shown s.saved f
+
+def Consistent (s : St) : Prop := ∀ f, s.client f = view s f
+
+/-- `t` differs from `s` only in what concerns file `f` -/
+def Frame (f : File) (s t : St) : Prop :=
+  ∀ g, g ≠ f → t.client g = s.client g ∧ lk t.change g = lk s.change g ∧ (g ∈ t.hidden ↔ g ∈ s.hidden) ∧
+    lk t.saved g = lk s.saved g
+
+theorem Frame.refl (f : File) (s : St) : Frame f s s := fun _ _ => ⟨rfl, rfl, Iff.rfl, rfl⟩
+
+theorem Frame.trans {f : File} {s t u : St} (h1 : Frame f s t) (h2 : Frame f t u) : Frame f s u := by
+  intro g hg
+  obtain ⟨a1, a2, a3, a4⟩ := h1 g hg
+  obtain ⟨b1, b2, b3, b4⟩ := h2 g hg
+  exact ⟨b1.trans a1, b2.trans a2, b3.trans a3, b4.trans a4⟩
+
+theorem view_frame {f : File} {s t : St} (h : Frame f s t) (g : File) (hg : g ≠ f) : view t g = view s g := by
+  obtain ⟨_, h2, h3, h4⟩ := h g hg
+  unfold view shown
+  rw [h2, h4]
+  cases lk s.change g with
+  | some e => rfl
+  | none =>
+    by_cases hm : g ∈ s.hidden
+    · simp [hm, h3.mpr hm]
+    · have : g ∉ t.hidden := fun x => hm (h3.mp x)
+      simp [hm, this]
+
+theorem consistent_of_frame {f : File} {s t : St} (hs : Consistent s) (hfr : Frame f s t)
+    (hf : t.client f = view t f) : Consistent t := by
+  intro g
+  by_cases hg : g = f
+  · subst hg; exact hf
+  · rw [(hfr g hg).1, hs g, view_frame hfr g hg]
+
+/-! ### the bookkeeping methods, one by one -/
+
+theorem pushFile_spec (s : St) (f : File) (b : Bool) :
+    (pushFile s f b).saved = s.saved ∧ (pushFile s f b).change = s.change ∧ (pushFile s f b).hidden = s.hidden ∧
+    (∀ g, g ≠ f → (pushFile s f b).client g = s.client g) ∧
+    (pushFile s f b).client f = (match lk s.saved f with
+      | none => s.client f
+      | some e => if b then nonSyntax e else e) := by
+  unfold pushFile
+  cases lk s.saved f with
+  | none => exact ⟨rfl, rfl, rfl, fun _ _ => rfl, rfl⟩
+  | some e =>
+    refine ⟨rfl, rfl, rfl, ?_, by simp [publish_client]⟩
+    intro g hg
+    have : (g == f) = false := by simpa using hg
+    simp [publish_client, this]
+
+theorem mem_filter_ne (l : List File) (f g : File) : g ∈ l.filter (· != f) ↔ g ∈ l ∧ g ≠ f := by
+  simp [List.mem_filter]
+
+theorem insertChange_spec (s : St) (f : File) (e : List Err) :
+    Frame f s (insertChange s f e) ∧ (insertChange s f e).change = ins s.change f e ∧
+    (insertChange s f e).client f = e := by
+  unfold insertChange
+  refine ⟨?_, rfl, by simp [publish_client]⟩
+  intro g hg
+  have e2 : (g == f) = false := by simpa using hg
+  refine ⟨by simp [publish_client, e2], ?_, ?_, rfl⟩
+  · show lk (ins s.change f e) g = lk s.change g
+    rw [lk_ins]; simp [e2]
+  · show g ∈ s.hidden.filter (· != f) ↔ g ∈ s.hidden
+    rw [mem_filter_ne]; exact ⟨fun h => h.1, fun h => ⟨h, hg⟩⟩
+
+theorem clearChange_spec (s : St) (f : File) :
+    Frame f s (clearChange s f) ∧ (clearChange s f).saved = s.saved ∧ (clearChange s f).hidden = s.hidden ∧
+    lk (clearChange s f).change f = none ∧
+    ((clearChange s f).change = s.change ∨ (clearChange s f).change = del s.change f) ∧
+    (clearChange s f).client f = (if (lk s.change f).isSome then nonSyntax (shown s.saved f) else s.client f) := by
+  unfold clearChange
+  cases h : lk s.change f with
+  | none => exact ⟨Frame.refl f s, rfl, rfl, h, Or.inl rfl, by simp⟩
+  | some c =>
     simp only
-    split
-    · rw [rechange_fold_change]; exact hc
-    · exact hc
-  · intro f
-    rw [pushAll_saved]
-    exact pushAll_file s new hn hf f (hs.2 f) (by rw [hs.1]; rfl)
+    obtain ⟨p1, p2, p3, p4, p5⟩ := pushFile_spec (publish { s with change := del s.change f } f []) f true
+    refine ⟨?_, p1, p3, ?_, Or.inr p2, ?_⟩
+    · intro g hg
+      have e2 : (g == f) = false := by simpa using hg
+      refine ⟨?_, ?_, by rw [p3]; exact Iff.rfl, by rw [p1]; rfl⟩
+      · rw [p4 g hg]; simp [publish_client, e2]
+      · rw [p2]; show lk (del s.change f) g = lk s.change g
+        rw [lk_del]; simp [e2]
+    · rw [p2]; show lk (del s.change f) f = none
+      rw [lk_del]; simp
+    · rw [p5]
+      show (match lk s.saved f with
+            | none => (publish { s with change := del s.change f } f []).client f
+            | some e => if true = true then nonSyntax e else e) = _
+      simp only [Option.isSome_some, if_true]
+      rw [shown_eq]
+      cases lk s.saved f with
+      | none => simp [publish_client, nonSyntax_nil]
+      | some e => simp
 
-theorem clearChange_noop (s : St) (f : File) (h : s.change = []) : clearChange s f = s := by
-  unfold clearChange; rw [h]; rfl
-
-theorem saveOne_settled (s : St) (f : File) (hs : Settled s) : Settled (saveOne s f) ∧ (saveOne s f).saved = s.saved := by
-  unfold saveOne
-  simp only [hs.1, del, List.filter]
+theorem clearSyntax_spec (s : St) (f : File) :
+    Frame f s (clearSyntax s f) ∧ (clearSyntax s f).saved = s.saved ∧ (clearSyntax s f).change = s.change ∧
+    f ∈ (clearSyntax s f).hidden ∧
+    (clearSyntax s f).client f = (match lk s.saved f with
+      | none => s.client f
+      | some e => nonSyntax e) := by
+  unfold clearSyntax
+  simp only
+  have hfr0 : ∀ g, g ≠ f → (g ∈ f :: s.hidden.filter (· != f) ↔ g ∈ s.hidden) := by
+    intro g hg
+    rw [List.mem_cons, mem_filter_ne]
+    exact ⟨fun h => h.elim (fun x => absurd x hg) (fun x => x.1), fun h => Or.inr ⟨h, hg⟩⟩
   cases h : lk s.saved f with
   | none =>
-    refine ⟨⟨rfl, ?_⟩, rfl⟩
-    intro g
-    rw [publish_client]
-    by_cases hg : g = f
-    · subst hg; simp [shown, publish_saved, h]
-    · have : (g == f) = false := by simpa using hg
-      simp [this]; exact hs.2 g
+    refine ⟨?_, rfl, rfl, List.mem_cons_self, rfl⟩
+    intro g hg
+    exact ⟨rfl, rfl, hfr0 g hg, rfl⟩
   | some e =>
-    have hp : pushFile { s with change := [] } f false = publish { s with change := [] } f e := by
-      unfold pushFile; simp [h]
-    rw [hp]
-    refine ⟨⟨rfl, ?_⟩, rfl⟩
-    intro g
-    rw [publish_client]
-    by_cases hg : g = f
-    · subst hg; simp [shown, publish_saved, h]
-    · have : (g == f) = false := by simpa using hg
-      simp [this]; exact hs.2 g
+    simp only
+    obtain ⟨p1, p2, p3, p4, p5⟩ := pushFile_spec (publish { s with hidden := f :: s.hidden.filter (· != f) } f []) f true
+    refine ⟨?_, p1, p2, by rw [p3]; exact List.mem_cons_self, ?_⟩
+    · intro g hg
+      have e2 : (g == f) = false := by simpa using hg
+      refine ⟨?_, by rw [p2]; rfl, by rw [p3]; exact hfr0 g hg, by rw [p1]; rfl⟩
+      rw [p4 g hg]; simp [publish_client, e2]
+    · rw [p5]
+      show (match lk s.saved f with
+            | none => _
+            | some e => if true = true then nonSyntax e else e) = _
+      rw [h]; simp
 
-/-- didSave from a settled state, the analysis delivering `new`: the client holds the fresh view of `new` -/
-theorem settled_save (s : St) (f : File) (new : EMap) (hs : Settled s) (hn : NodupKeys new)
-    (hf : Faithful s.saved new) : Settled (evSave s f new) ∧ (evSave s f new).saved = new := by
-  obtain ⟨h1, h2⟩ := pushAll_settled s new hs hn hf
-  obtain ⟨h3, h4⟩ := saveOne_settled (pushAll s new) f h1
-  exact ⟨h3, h4.trans h2⟩
-#print axioms settled_save
+theorem saveOne_spec (s : St) (f : File) :
+    Frame f s (saveOne s f) ∧ (saveOne s f).saved = s.saved ∧ (saveOne s f).change = del s.change f ∧
+    (saveOne s f).hidden = s.hidden.filter (· != f) ∧ (saveOne s f).client f = shown s.saved f := by
+  unfold saveOne
+  simp only
+  have hfr : ∀ (t : St), t.saved = s.saved → t.change = del s.change f → t.hidden = s.hidden.filter (· != f) →
+      (∀ g, g ≠ f → t.client g = s.client g) → Frame f s t := by
+    intro t h1 h2 h3 h4 g hg
+    have e2 : (g == f) = false := by simpa using hg
+    refine ⟨h4 g hg, ?_, ?_, by rw [h1]⟩
+    · rw [h2, lk_del]; simp [e2]
+    · rw [h3, mem_filter_ne]; exact ⟨fun h => h.1, fun h => ⟨h, hg⟩⟩
+  cases h : lk s.saved f with
+  | none =>
+    simp only
+    refine ⟨hfr _ rfl rfl rfl ?_, rfl, rfl, rfl, by simp [publish_client, shown, h]⟩
+    intro g hg
+    have e2 : (g == f) = false := by simpa using hg
+    simp [publish_client, e2]
+  | some e =>
+    simp only
+    obtain ⟨p1, p2, p3, p4, p5⟩ :=
+      pushFile_spec { s with change := del s.change f, hidden := s.hidden.filter (· != f) } f false
+    refine ⟨hfr _ p1 p2 p3 p4, p1, p2, p3, ?_⟩
+    rw [p5]
+    show (match lk s.saved f with
+          | none => _
+          | some e => if false = true then nonSyntax e else e) = _
+    rw [h]; simp [shown, h]
 
-theorem fold_clearChange_noop (fs : List File) (s : St) (h : s.change = []) : fs.foldl clearChange s = s := by
-  induction fs generalizing s with
-  | nil => rfl
-  | cons f r ih => simp only [List.foldl]; rw [clearChange_noop s f h]; exact ih s h
+/-! ### the full re-publish -/
 
-/-- didChangeWatchedFiles (creations, changes, deletions) from a settled state -/
-theorem settled_watched (s : St) (fs : List File) (new : EMap) (hs : Settled s) (hn : NodupKeys new)
-    (hf : Faithful s.saved new) : Settled (evWatched s fs new) ∧ (evWatched s fs new).saved = new := by
-  unfold evWatched
-  rw [fold_clearChange_noop fs s hs.1]
-  exact pushAll_settled s new hs hn hf
-#print axioms settled_watched
+theorem rechange_fold_spec (l : EMap) (t : St) (hn : NodupKeys l) :
+    (l.foldl rechangeStep t).saved = t.saved ∧ (l.foldl rechangeStep t).change = t.change ∧
+    (l.foldl rechangeStep t).hidden = t.hidden ∧
+    ∀ f, (l.foldl rechangeStep t).client f = (match lk l f with | some e => e | none => t.client f) := by
+  induction l generalizing t with
+  | nil => exact ⟨rfl, rfl, rfl, fun f => by simp [lk]⟩
+  | cons p r ih =>
+    obtain ⟨hn', hnot⟩ := nodup_tail p r hn
+    simp only [List.foldl]
+    obtain ⟨a, b, b', c⟩ := ih (rechangeStep t p) hn'
+    refine ⟨a, b, b', ?_⟩
+    intro f
+    rw [c f, lk_cons]
+    by_cases hp : p.1 = f
+    · subst hp
+      have hr : lk r p.1 = none := (lk_none_iff r p.1).mpr hnot
+      simp [hr, rechangeStep, publish_client]
+    · have e1 : (p.1 == f) = false := by simpa using hp
+      have e2 : (f == p.1) = false := by simpa using fun h => hp h.symm
+      simp only [e1, Bool.false_eq_true, if_false]
+      cases lk r f <;> simp [rechangeStep, publish_client, e2]
 
-/-- didOpen from a settled state -/
-theorem settled_open (s : St) (f : File) (new : EMap) (hs : Settled s) (hn : NodupKeys new)
-    (hf : Faithful s.saved new) : Settled (evOpen s f new) ∧ (evOpen s f new).saved = new := by
-  unfold evOpen
-  obtain ⟨h1, h2⟩ := pushAll_settled s new hs hn hf
-  rw [clearChange_noop _ f h1.1]
-  exact ⟨h1, h2⟩
-#print axioms settled_open
+theorem rehideStep_spec (t : St) (g : File) :
+    (rehideStep t g).saved = t.saved ∧ (rehideStep t g).change = t.change ∧ (rehideStep t g).hidden = t.hidden ∧
+    ∀ f, (rehideStep t g).client f =
+      (if f = g ∧ lk t.change g = none then nonSyntax (shown t.saved g) else t.client f) := by
+  cases h : lk t.change g with
+  | some c =>
+    have : rehideStep t g = t := by unfold rehideStep; simp [h]
+    rw [this]
+    exact ⟨rfl, rfl, rfl, fun f => by simp⟩
+  | none =>
+    have : rehideStep t g = pushFile (publish t g []) g true := by unfold rehideStep; simp [h]
+    rw [this]
+    obtain ⟨p1, p2, p3, p4, p5⟩ := pushFile_spec (publish t g []) g true
+    refine ⟨p1, p2, p3, ?_⟩
+    intro f
+    by_cases hf : f = g
+    · subst hf
+      simp only [true_and, if_true]
+      rw [p5, shown_eq]
+      show (match lk t.saved f with
+            | none => (publish t f []).client f
+            | some e => if true = true then nonSyntax e else e) = _
+      cases lk t.saved f with
+      | none => simp [publish_client, nonSyntax_nil]
+      | some e => simp
+    · have e2 : (f == g) = false := by simpa using hf
+      rw [p4 f hf]
+      simp [hf, publish_client, e2]
 
-/-- didClose from a settled state: a file outside the workspace directories is forgotten and cleared -/
-theorem settled_close (s : St) (f : File) (inDir : Bool) (hs : Settled s) : Settled (evClose s f inDir) := by
+theorem rehide_fold_spec (l : List File) (t : St) :
+    (l.foldl rehideStep t).saved = t.saved ∧ (l.foldl rehideStep t).change = t.change ∧
+    (l.foldl rehideStep t).hidden = t.hidden ∧
+    ∀ f, (l.foldl rehideStep t).client f =
+      (if f ∈ l ∧ lk t.change f = none then nonSyntax (shown t.saved f) else t.client f) := by
+  induction l generalizing t with
+  | nil => exact ⟨rfl, rfl, rfl, fun f => by simp⟩
+  | cons g r ih =>
+    simp only [List.foldl]
+    obtain ⟨a, b, b', c⟩ := ih (rehideStep t g)
+    obtain ⟨q1, q2, q3, q4⟩ := rehideStep_spec t g
+    refine ⟨a.trans q1, b.trans q2, b'.trans q3, ?_⟩
+    intro f
+    rw [c f, q1, q2, q4 f]
+    by_cases hc : lk t.change f = none
+    · by_cases hr : f ∈ r
+      · simp [hr, hc]
+      · by_cases hg : f = g
+        · subst hg; simp [hc]
+        · simp [hr, hg, hc]
+    · by_cases hg : f = g
+      · subst hg; simp [hc]
+      · simp [hc, hg]
+
+/-- the state after the two comparison loops of pushAllDiagnosticsAgain -/
+def pushCore (s : St) (new : EMap) : St :=
+  { (new.foldl (pushStep s.saved) (s.saved.foldl (clearStep new) s)) with saved := new }
+
+theorem pushCore_fields (s : St) (new : EMap) :
+    (pushCore s new).saved = new ∧ (pushCore s new).change = s.change ∧ (pushCore s new).hidden = s.hidden := by
+  unfold pushCore
+  refine ⟨rfl, ?_, ?_⟩
+  · show (new.foldl (pushStep s.saved) (s.saved.foldl (clearStep new) s)).change = s.change
+    rw [(push_fold_fields _ _ _).2.1, (clear_fold_fields _ _ _).2.1]
+  · show (new.foldl (pushStep s.saved) (s.saved.foldl (clearStep new) s)).hidden = s.hidden
+    rw [(push_fold_fields _ _ _).2.2, (clear_fold_fields _ _ _).2.2]
+
+/-- a file whose client view was the fresh view of the old map shows the fresh view of the new map after the
+    comparison loops (lists IsSameErrList calls the same ARE the same: `sameErrs_eq`) -/
+theorem pushCore_client (s : St) (new : EMap) (hn : NodupKeys new) (f : File)
+    (hc : s.client f = shown s.saved f) : (pushCore s new).client f = shown new f := by
+  show (new.foldl (pushStep s.saved) (s.saved.foldl (clearStep new) s)).client f = shown new f
+  rw [push_fold_client s.saved new hn, clear_fold_client]
+  unfold shown at hc ⊢
+  cases hnew : lk new f with
+  | none =>
+    simp only [Option.isNone_none, Bool.and_true, Option.getD_none]
+    cases hk : hasKey s.saved f
+    · have : lk s.saved f = none := (lk_none_iff _ _).mpr hk
+      simp [hc, this]
+    · simp
+  | some e =>
+    simp only [Option.isNone_some, Bool.and_false, Option.getD_some]
+    cases hold : lk s.saved f with
+    | none => simp
+    | some o =>
+      by_cases hs : sameErrs o e = true
+      · have := sameErrs_eq o e hs
+        simp [hc, hold, this]
+      · simp [hs]
+
+theorem pushAll_eq (s : St) (new : EMap) :
+    pushAll s new =
+      ((pushCore s new).change.foldl rechangeStep (pushCore s new)).hidden.foldl rehideStep
+        ((pushCore s new).change.foldl rechangeStep (pushCore s new)) := rfl
+
+theorem pushAll_fields (s : St) (new : EMap) :
+    (pushAll s new).saved = new ∧ (pushAll s new).change = s.change ∧ (pushAll s new).hidden = s.hidden := by
+  rw [pushAll_eq]
+  obtain ⟨c1, c2, c3⟩ := pushCore_fields s new
+  obtain ⟨h1, h2, h3, _⟩ := rehide_fold_spec ((pushCore s new).change.foldl rechangeStep (pushCore s new)).hidden
+    ((pushCore s new).change.foldl rechangeStep (pushCore s new))
+  have hrc : ∀ (l : EMap) (t : St), (l.foldl rechangeStep t).saved = t.saved ∧ (l.foldl rechangeStep t).change = t.change ∧
+      (l.foldl rechangeStep t).hidden = t.hidden := by
+    intro l
+    induction l with
+    | nil => intro t; exact ⟨rfl, rfl, rfl⟩
+    | cons p r ih => intro t; simp only [List.foldl]; obtain ⟨a, b, c⟩ := ih (rechangeStep t p); exact ⟨a, b, c⟩
+  obtain ⟨r1, r2, r3⟩ := hrc (pushCore s new).change (pushCore s new)
+  exact ⟨h1.trans (r1.trans c1), h2.trans (r2.trans c2), h3.trans (r3.trans c3)⟩
+
+/-- THE re-publish theorem: after pushAllDiagnosticsAgain every file shows its view — the buffer's syntax errors,
+    the saved non-syntax diagnostics, or the fresh view of the new map -/
+theorem pushAll_consistent (s : St) (new : EMap) (hn : NodupKeys new) (hcn : NodupKeys s.change)
+    (hs : Consistent s) : Consistent (pushAll s new) := by
+  intro f
+  obtain ⟨f1, f2, f3⟩ := pushAll_fields s new
+  obtain ⟨c1, c2, c3⟩ := pushCore_fields s new
+  unfold view
+  rw [f1, f2, f3, pushAll_eq]
+  obtain ⟨r1, r2, r3, r4⟩ := rechange_fold_spec (pushCore s new).change (pushCore s new) (by rw [c2]; exact hcn)
+  obtain ⟨_, _, _, h4⟩ := rehide_fold_spec ((pushCore s new).change.foldl rechangeStep (pushCore s new)).hidden
+    ((pushCore s new).change.foldl rechangeStep (pushCore s new))
+  rw [h4 f, r2, r3, r1, r4 f, c1, c2, c3]
+  cases hch : lk s.change f with
+  | some e => simp
+  | none =>
+    simp only [and_true]
+    by_cases hm : f ∈ s.hidden
+    · simp [hm]
+    · simp only [hm, if_false]
+      apply pushCore_client s new hn f
+      have := hs f
+      unfold view at this
+      rw [hch] at this
+      simpa [hm] using this
+#print axioms pushAll_consistent
+
+/-! ### the handlers: the invariant of every history -/
+
+/-- every file shows its view, and the unsaved-error map has one entry per file -/
+def Inv (s : St) : Prop := Consistent s ∧ NodupKeys s.change
+
+theorem pushAll_inv (s : St) (new : EMap) (hn : NodupKeys new) (hs : Inv s) : Inv (pushAll s new) :=
+  ⟨pushAll_consistent s new hn hs.2 hs.1, by rw [(pushAll_fields s new).2.1]; exact hs.2⟩
+
+/-- an edit (or an opened text) with syntax errors -/
+theorem insertChange_inv (s : St) (f : File) (e : List Err) (hs : Inv s) : Inv (insertChange s f e) := by
+  obtain ⟨p1, p2, p3⟩ := insertChange_spec s f e
+  refine ⟨consistent_of_frame hs.1 p1 ?_, by rw [p2]; exact nodup_ins _ _ _ hs.2⟩
+  unfold view
+  rw [p2, lk_ins]; simp [p3]
+
+/-- an edit (or an opened text) without syntax errors -/
+theorem cleanEdit_inv (s : St) (f : File) (hs : Inv s) : Inv (clearSyntax (clearChange s f) f) := by
+  obtain ⟨a1, a2, a3, a4, a5, a6⟩ := clearChange_spec s f
+  obtain ⟨b1, b2, b3, b4, b5⟩ := clearSyntax_spec (clearChange s f) f
+  refine ⟨consistent_of_frame hs.1 (a1.trans b1) ?_, ?_⟩
+  · unfold view
+    rw [b3, a4]
+    simp only [b4, if_true]
+    rw [b5, b2, a2, shown_eq]
+    cases hsv : lk s.saved f with
+    | some e => rfl
+    | none =>
+      simp only [nonSyntax_nil]
+      rw [a6]
+      cases hch : lk s.change f with
+      | some c => simp [shown_eq, hsv, nonSyntax_nil]
+      | none =>
+        simp only [Option.isSome_none, Bool.false_eq_true, if_false]
+        have := hs.1 f
+        unfold view at this
+        rw [hch] at this
+        simp only at this
+        rw [this, shown_eq, hsv]
+        by_cases hm : f ∈ s.hidden <;> simp [hm, nonSyntax_nil]
+  · rw [b3]
+    cases a5 with
+    | inl h => rw [h]; exact hs.2
+    | inr h => rw [h]; exact nodup_del _ _ hs.2
+
+theorem evChange_inv (s : St) (f : File) (errs : List Err) (hs : Inv s) : Inv (evChange s f errs) := by
+  unfold evChange
+  split
+  · exact cleanEdit_inv s f hs
+  · exact insertChange_inv s f errs hs
+
+theorem saveOne_inv (s : St) (f : File) (hs : Inv s) : Inv (saveOne s f) := by
+  obtain ⟨p1, p2, p3, p4, p5⟩ := saveOne_spec s f
+  refine ⟨consistent_of_frame hs.1 p1 ?_, by rw [p3]; exact nodup_del _ _ hs.2⟩
+  unfold view
+  rw [p3, lk_del, p4, p2, p5]
+  simp
+
+theorem evSave_inv (s : St) (f : File) (new : EMap) (hn : NodupKeys new) (hs : Inv s) : Inv (evSave s f new) :=
+  saveOne_inv _ f (pushAll_inv s new hn hs)
+
+theorem evWatched_inv (s : St) (fs : List File) (new : EMap) (hn : NodupKeys new) (hs : Inv s) :
+    Inv (evWatched s fs new) := pushAll_inv s new hn hs
+
+theorem evClose_inv (s : St) (f : File) (inDir : Bool) (hs : Inv s) : Inv (evClose s f inDir) := by
+  have h1 := saveOne_inv s f hs
+  obtain ⟨p1, p2, p3, p4, p5⟩ := saveOne_spec s f
   unfold evClose
-  obtain ⟨h1, h2⟩ := saveOne_settled s f hs
   cases inDir with
   | true => exact h1
   | false =>
-    refine ⟨h1.1, ?_⟩
-    intro g
-    show (publish (saveOne s f) f []).client g = shown (del (saveOne s f).saved f) g
-    rw [publish_client]
-    unfold shown
-    rw [lk_del]
-    by_cases hg : g = f
-    · subst hg; simp
-    · have : (g == f) = false := by simpa using hg
-      simp [this]; exact h1.2 g
-#print axioms settled_close
+    simp only [Bool.false_eq_true, if_false]
+    refine ⟨?_, h1.2⟩
+    have hfr : Frame f (saveOne s f) { publish (saveOne s f) f [] with saved := del (saveOne s f).saved f } := by
+      intro g hg
+      have e2 : (g == f) = false := by simpa using hg
+      refine ⟨by simp [publish_client, e2], rfl, Iff.rfl, ?_⟩
+      show lk (del (saveOne s f).saved f) g = _
+      rw [lk_del]; simp [e2]
+    refine consistent_of_frame h1.1 hfr ?_
+    unfold view
+    show (publish (saveOne s f) f []).client f =
+      (match lk (saveOne s f).change f with
+       | some e => e
+       | none => if f ∈ (saveOne s f).hidden then nonSyntax (shown (del (saveOne s f).saved f) f)
+                 else shown (del (saveOne s f).saved f) f)
+    rw [p3, lk_del, p4]
+    simp [publish_client, shown, lk_del]
+
+/-- didOpen of a document that is not open (no unsaved entry is left of it): the opened text is the file's
+    (`edit = none`) or differs from it (`some errs` = its syntax errors) -/
+theorem evOpenWith_inv (s : St) (f : File) (new : EMap) (edit : Option (List Err)) (hn : NodupKeys new) (hs : Inv s)
+    (hclosed : lk s.change f = none) : Inv (evOpenWith s f new edit) := by
+  have hu := pushAll_inv s new hn hs
+  have hcu : lk (pushAll s new).change f = none := by rw [(pushAll_fields s new).2.1]; exact hclosed
+  have hnoop : ∀ t : St, lk t.change f = none → clearChange t f = t := by
+    intro t ht; unfold clearChange; rw [ht]
+  unfold evOpenWith
+  cases edit with
+  | none =>
+    simp only
+    unfold evOpen
+    rw [hnoop _ hcu]; exact hu
+  | some errs =>
+    simp only
+    split
+    · have h1 : lk (clearSyntax (pushAll s new) f).change f = none := by
+        rw [(clearSyntax_spec (pushAll s new) f).2.2.1]; exact hcu
+      rw [hnoop _ h1]
+      have := cleanEdit_inv (pushAll s new) f hu
+      rw [hnoop _ hcu] at this
+      exact this
+    · exact insertChange_inv _ f errs hu
+
+/-- the events of a history, each with the error map its analysis delivered -/
+inductive Ev where
+  | open (f : File) (new : EMap) (edit : Option (List Err))
+  | change (f : File) (errs : List Err)
+  | save (f : File) (new : EMap)
+  | close (f : File) (inDir : Bool)
+  | watched (fs : List File) (new : EMap)
+
+def step (s : St) : Ev → St
+  | .open f new edit => evOpenWith s f new edit
+  | .change f errs => evChange s f errs
+  | .save f new => evSave s f new
+  | .close f inDir => evClose s f inDir
+  | .watched fs new => evWatched s fs new
+
+/-- what a history must satisfy: the error maps have one entry per file (they are Go maps), and didOpen is sent
+    for a document of which no unsaved entry is left (it is not open: see `closed_is_clean`) -/
+def okEv (s : St) : Ev → Prop
+  | .open f new _ => NodupKeys new ∧ lk s.change f = none
+  | .save _ new => NodupKeys new
+  | .watched _ new => NodupKeys new
+  | _ => True
+
+def Valid : St → List Ev → Prop
+  | _, [] => True
+  | s, e :: r => okEv s e ∧ Valid (step s e) r
+
+theorem step_inv (s : St) (e : Ev) (hs : Inv s) (ho : okEv s e) : Inv (step s e) := by
+  cases e with
+  | «open» f new edit => exact evOpenWith_inv s f new edit ho.1 hs ho.2
+  | change f errs => exact evChange_inv s f errs hs
+  | save f new => exact evSave_inv s f new ho hs
+  | close f inDir => exact evClose_inv s f inDir hs
+  | watched fs new => exact evWatched_inv s fs new ho hs
+
+/-- C08 for the bookkeeping: along EVERY history, after EVERY event, every file shows its view -/
+theorem history_consistent (evs : List Ev) (s : St) (hs : Inv s) (hv : Valid s evs) : Inv (evs.foldl step s) := by
+  induction evs generalizing s with
+  | nil => exact hs
+  | cons e r ih =>
+    simp only [List.foldl]
+    exact ih (step s e) (step_inv s e hs hv.1) hv.2
+#print axioms history_consistent
+
+/-- once no buffer is unsaved the view is what a freshly started server publishes for the saved map -/
+theorem fresh_when_settled (s : St) (hs : Consistent s) (hc : s.change = []) (hh : s.hidden = []) (f : File) :
+    s.client f = shown s.saved f := by
+  have := hs f
+  unfold view at this
+  rw [hc, hh] at this
+  simpa [lk] using this
+#print axioms fresh_when_settled
+
+/-- saving (or closing) a document leaves no unsaved entry of it -/
+theorem closed_is_clean (s : St) (f : File) (inDir : Bool) :
+    lk (evClose s f inDir).change f = none ∧ f ∉ (evClose s f inDir).hidden := by
+  obtain ⟨_, _, p3, p4, _⟩ := saveOne_spec s f
+  have h1 : lk (saveOne s f).change f = none := by rw [p3, lk_del]; simp
+  have h2 : f ∉ (saveOne s f).hidden := by rw [p4, mem_filter_ne]; exact fun h => h.2 rfl
+  unfold evClose
+  cases inDir <;> exact ⟨h1, h2⟩
+#print axioms closed_is_clean
+
+
+/-! ### conformant clients: didOpen only for a document that is not open -/
+
+/-- `t` has the unsaved entries of `s` for every file but `f` -/
+def Keys (f : File) (s t : St) : Prop :=
+  ∀ g, g ≠ f → lk t.change g = lk s.change g ∧ (g ∈ t.hidden ↔ g ∈ s.hidden)
+
+theorem keys_of_frame {f : File} {s t : St} (h : Frame f s t) : Keys f s t :=
+  fun g hg => ⟨(h g hg).2.1, (h g hg).2.2.1⟩
+
+theorem keys_of_fields {f : File} {s t : St} (h2 : t.change = s.change) (h3 : t.hidden = s.hidden) : Keys f s t :=
+  fun _ _ => ⟨by rw [h2], by rw [h3]⟩
+
+theorem Keys.trans {f : File} {s t u : St} (h1 : Keys f s t) (h2 : Keys f t u) : Keys f s u :=
+  fun g hg => ⟨(h2 g hg).1.trans (h1 g hg).1, (h2 g hg).2.trans (h1 g hg).2⟩
+
+theorem pushAll_keys (f : File) (s : St) (new : EMap) : Keys f s (pushAll s new) :=
+  keys_of_fields (pushAll_fields s new).2.1 (pushAll_fields s new).2.2
+
+theorem evChange_keys (s : St) (f : File) (errs : List Err) : Keys f s (evChange s f errs) := by
+  unfold evChange
+  split
+  · exact keys_of_frame ((clearChange_spec s f).1.trans (clearSyntax_spec _ f).1)
+  · exact keys_of_frame (insertChange_spec s f errs).1
+
+theorem evSave_keys (s : St) (f : File) (new : EMap) : Keys f s (evSave s f new) :=
+  (pushAll_keys f s new).trans (keys_of_frame (saveOne_spec _ f).1)
+
+theorem evClose_keys (s : St) (f : File) (inDir : Bool) : Keys f s (evClose s f inDir) := by
+  have h := keys_of_frame (saveOne_spec s f).1
+  unfold evClose
+  cases inDir with
+  | true => exact h
+  | false => exact h.trans (keys_of_fields rfl rfl)
+
+theorem evOpenWith_keys (s : St) (f : File) (new : EMap) (edit : Option (List Err)) :
+    Keys f s (evOpenWith s f new edit) := by
+  unfold evOpenWith
+  cases edit with
+  | none => exact (pushAll_keys f s new).trans (keys_of_frame (clearChange_spec _ f).1)
+  | some errs =>
+    simp only
+    split
+    · exact (pushAll_keys f s new).trans
+        ((keys_of_frame (clearSyntax_spec _ f).1).trans (keys_of_frame (clearChange_spec _ f).1))
+    · exact (pushAll_keys f s new).trans (keys_of_frame (insertChange_spec _ f errs).1)
+
+/-- the documents the client has open after an event -/
+def openedAfter (opened : List File) : Ev → List File
+  | .open f _ _ => f :: opened
+  | .close f _ => opened.filter (· != f)
+  | _ => opened
+
+/-- a conformant client sends didOpen only for a document that is not open and didChange only for one that is -/
+def okC (opened : List File) : Ev → Prop
+  | .open f new _ => NodupKeys new ∧ f ∉ opened
+  | .change f _ => f ∈ opened
+  | .save _ new => NodupKeys new
+  | .watched _ new => NodupKeys new
+  | .close _ _ => True
+
+def ValidC : List File → List Ev → Prop
+  | _, [] => True
+  | o, e :: r => okC o e ∧ ValidC (openedAfter o e) r
+
+/-- no unsaved entry is held for a document that is not open -/
+def Closed (s : St) (opened : List File) : Prop := ∀ f, f ∉ opened → lk s.change f = none ∧ f ∉ s.hidden
+
+theorem step_closed (s : St) (opened : List File) (e : Ev) (hc : Closed s opened) (ho : okC opened e) :
+    Closed (step s e) (openedAfter opened e) := by
+  have use : ∀ (f : File) (t : St), Keys f s t → ∀ g, g ≠ f → g ∉ opened → lk t.change g = none ∧ g ∉ t.hidden := by
+    intro f t hk g hg hno
+    obtain ⟨k1, k2⟩ := hk g hg
+    obtain ⟨c1, c2⟩ := hc g hno
+    exact ⟨k1.trans c1, fun h => c2 (k2.mp h)⟩
+  cases e with
+  | «open» f new edit =>
+    intro g hg
+    have hg' : g ≠ f ∧ g ∉ opened := by
+      simp only [openedAfter, List.mem_cons, not_or] at hg; exact hg
+    exact use f _ (evOpenWith_keys s f new edit) g hg'.1 hg'.2
+  | change f errs =>
+    intro g hg
+    have : g ≠ f := fun h => hg (h ▸ ho)
+    exact use f _ (evChange_keys s f errs) g this hg
+  | save f new =>
+    intro g hg
+    by_cases hgf : g = f
+    · subst hgf
+      obtain ⟨_, _, p3, p4, _⟩ := saveOne_spec (pushAll s new) g
+      show lk (saveOne (pushAll s new) g).change g = none ∧ g ∉ (saveOne (pushAll s new) g).hidden
+      rw [p3, p4, lk_del, mem_filter_ne]
+      exact ⟨by simp, fun h => h.2 rfl⟩
+    · exact use f _ (evSave_keys s f new) g hgf hg
+  | close f inDir =>
+    intro g hg
+    by_cases hgf : g = f
+    · subst hgf; exact closed_is_clean s g inDir
+    · have : g ∉ opened := by
+        intro h
+        apply hg
+        simp only [openedAfter]
+        rw [mem_filter_ne]; exact ⟨h, hgf⟩
+      exact use f _ (evClose_keys s f inDir) g hgf this
+  | watched fs new =>
+    intro g hg
+    obtain ⟨c1, c2⟩ := hc g hg
+    show lk (pushAll s new).change g = none ∧ g ∉ (pushAll s new).hidden
+    rw [(pushAll_fields s new).2.1, (pushAll_fields s new).2.2]
+    exact ⟨c1, c2⟩
+
+theorem okEv_of_okC (s : St) (opened : List File) (e : Ev) (hc : Closed s opened) (ho : okC opened e) : okEv s e := by
+  cases e with
+  | «open» f new edit => exact ⟨ho.1, (hc f ho.2).1⟩
+  | change f errs => trivial
+  | save f new => exact ho
+  | close f inDir => trivial
+  | watched fs new => exact ho
+
+/-- C08 for the bookkeeping, stated over the protocol alone: for every history a conformant client can produce,
+    whatever the analyses deliver, after every event every file shows its view -/
+theorem conformant_history_consistent (evs : List Ev) (s : St) (opened : List File) (hs : Inv s)
+    (hc : Closed s opened) (hv : ValidC opened evs) : Inv (evs.foldl step s) := by
+  induction evs generalizing s opened with
+  | nil => exact hs
+  | cons e r ih =>
+    simp only [List.foldl]
+    exact ih (step s e) (openedAfter opened e) (step_inv s e hs (okEv_of_okC s opened e hc hv.1))
+      (step_closed s opened e hc hv.1) hv.2
+#print axioms conformant_history_consistent
+
+/-! ### settled states: what a freshly started server shows -/
+
+/-- no unsaved entries, and the client holds exactly what a fresh server publishes for `saved` -/
+def Settled (s : St) : Prop := s.change = [] ∧ s.hidden = [] ∧ ∀ f, s.client f = shown s.saved f
+
+theorem settled_inv (s : St) (h : Settled s) : Inv s ∧ Closed s [] := by
+  obtain ⟨h1, h2, h3⟩ := h
+  refine ⟨⟨?_, by rw [h1]; exact List.nodup_nil⟩, ?_⟩
+  · intro f; unfold view; rw [h1, h2]; simpa [lk] using h3 f
+  · intro f _; rw [h1, h2]; exact ⟨rfl, List.not_mem_nil⟩
 
 /-- a fresh server (initialize) is settled -/
 theorem init_settled (m : EMap) (hn : NodupKeys m) : Settled (evInit m) ∧ (evInit m).saved = m := by
   have key : ∀ (l : EMap) (t : St), NodupKeys l →
       (l.foldl (fun s p => publish s p.1 p.2) t).saved = t.saved ∧
       (l.foldl (fun s p => publish s p.1 p.2) t).change = t.change ∧
+      (l.foldl (fun s p => publish s p.1 p.2) t).hidden = t.hidden ∧
       ∀ f, (l.foldl (fun s p => publish s p.1 p.2) t).client f = (match lk l f with | some e => e | none => t.client f) := by
     intro l
     induction l with
-    | nil => intro t _; exact ⟨rfl, rfl, fun f => by simp [lk]⟩
+    | nil => intro t _; exact ⟨rfl, rfl, rfl, fun f => by simp [lk]⟩
     | cons p r ih =>
       intro t hn
       obtain ⟨hn', hnot⟩ := nodup_tail p r hn
       simp only [List.foldl]
-      obtain ⟨a, b, c⟩ := ih (publish t p.1 p.2) hn'
-      refine ⟨a, b, ?_⟩
+      obtain ⟨a, b, b', c⟩ := ih (publish t p.1 p.2) hn'
+      refine ⟨a, b, b', ?_⟩
       intro f
       rw [c f, lk_cons]
       by_cases hp : p.1 = f
@@ -438,8 +993,8 @@ theorem init_settled (m : EMap) (hn : NodupKeys m) : Settled (evInit m) ∧ (evI
         have e2 : (f == p.1) = false := by simpa using fun h => hp h.symm
         simp only [e1, Bool.false_eq_true, if_false]
         cases lk r f <;> simp [publish_client, e2]
-  obtain ⟨a, b, c⟩ := key m { saved := m } hn
-  refine ⟨⟨b, ?_⟩, a⟩
+  obtain ⟨a, b, b', c⟩ := key m { saved := m } hn
+  refine ⟨⟨b, b', ?_⟩, a⟩
   intro f
   unfold evInit
   rw [c f, a]
@@ -447,212 +1002,50 @@ theorem init_settled (m : EMap) (hn : NodupKeys m) : Settled (evInit m) ∧ (evI
   cases lk m f <;> rfl
 #print axioms init_settled
 
-/-- an edit whose buffer has syntax errors: the file shows exactly them, every other file is untouched -/
-theorem change_with_errors (s : St) (f : File) (errs : List Err) (he : errs ≠ []) :
-    (evChange s f errs).client f = errs ∧ ∀ g, g ≠ f → (evChange s f errs).client g = s.client g := by
-  have : errs.isEmpty = false := by cases errs <;> simp at he ⊢
-  unfold evChange
-  rw [this]
-  simp only [Bool.false_eq_true, if_false]
-  unfold insertChange
-  refine ⟨by simp [publish_client], ?_⟩
-  intro g hg
-  have : (g == f) = false := by simpa using hg
-  simp [publish_client, this]
-#print axioms change_with_errors
 
-/-- an edit whose buffer has no syntax error, from a settled state: the file shows its last saved
-    non-syntax diagnostics, every other file is untouched -/
-theorem change_without_errors (s : St) (f : File) (hs : Settled s) :
-    (evChange s f []).client f = nonSyntax (shown s.saved f) ∧
-    ∀ g, g ≠ f → (evChange s f []).client g = s.client g := by
-  unfold evChange
-  simp only [List.isEmpty_nil, if_true]
-  rw [clearChange_noop s f hs.1]
-  unfold clearSyntax
-  cases h : lk s.saved f with
-  | none =>
-    refine ⟨?_, fun g _ => rfl⟩
-    rw [hs.2 f]; simp [shown, h, nonSyntax]
-  | some e =>
-    have hp : pushFile (publish s f []) f true = publish (publish s f []) f (nonSyntax e) := by
-      unfold pushFile; simp [publish_saved, h]
-    simp only [hp]
-    refine ⟨by simp [publish_client, shown, h], ?_⟩
-    intro g hg
-    have : (g == f) = false := by simpa using hg
-    simp [publish_client, this]
-#print axioms change_without_errors
+/-- from a freshly started server, along every history of a conformant client, every file shows its view after
+    every event; in particular (`fresh_when_settled`) once every buffer is saved or closed the client holds what a
+    freshly started server publishes for the final error map -/
+theorem from_fresh (m : EMap) (hn : NodupKeys m) (evs : List Ev) (hv : ValidC [] evs) :
+    Consistent (evs.foldl step (evInit m)) :=
+  (conformant_history_consistent evs (evInit m) [] (settled_inv _ (init_settled m hn).1).1
+    (settled_inv _ (init_settled m hn).1).2 hv).1
+#print axioms from_fresh
 
-theorem clearSyntax_change (s : St) (f : File) : (clearSyntax s f).change = s.change := by
-  unfold clearSyntax
-  cases lk s.saved f with
-  | none => rfl
-  | some e => simp [pushFile, publish]; split <;> rfl
+/-- the premises are satisfiable and the statement is not vacuous: an open-edit-(other file saved)-save history -/
+example :
+    ValidC [] [.open "f.lua" [("f.lua", [⟨2, "w", ""⟩])] none, .change "f.lua" [⟨1, "syntax", ""⟩],
+               .save "g.lua" [("g.lua", [⟨2, "w", ""⟩])], .save "f.lua" []] := by
+  simp [ValidC, okC, openedAfter, NodupKeys]
 
-/-- didOpen with a text that differs from the file (from a settled state) is didOpen followed by the edit
-    that turns the file's text into the opened one: what the client is shown is covered by
-    `change_with_errors` / `change_without_errors` -/
-theorem open_edited (s : St) (f : File) (new : EMap) (errs : List Err) (hs : Settled s) (hn : NodupKeys new)
-    (hf : Faithful s.saved new) :
-    evOpenWith s f new (some errs) = evChange (evOpen s f new) f errs := by
-  obtain ⟨h1, _⟩ := pushAll_settled s new hs hn hf
-  unfold evOpenWith evOpen evChange
-  simp only
-  rw [clearChange_noop (pushAll s new) f h1.1]
-  by_cases he : errs.isEmpty = true
-  · simp only [he, if_true]
-    rw [clearChange_noop (pushAll s new) f h1.1]
-    exact clearChange_noop _ f (by rw [clearSyntax_change]; exact h1.1)
-  · simp only [he]
-    rfl
-#print axioms open_edited
-
-/-- edit (with syntax errors) then save: settled again, whatever the buffer showed in between -/
-theorem edit_save_cycle (s : St) (f : File) (errs : List Err) (new : EMap) (hs : Settled s) (he : errs ≠ [])
-    (hn : NodupKeys new) (hf : Faithful s.saved new) :
-    Settled (evSave (evChange s f errs) f new) ∧ (evSave (evChange s f errs) f new).saved = new := by
-  have hne : errs.isEmpty = false := by cases errs <;> simp at he ⊢
-  have hs1 : (evChange s f errs).saved = s.saved := by
-    unfold evChange; rw [hne]; rfl
-  have hc1 : (evChange s f errs).change = [(f, errs)] := by
-    unfold evChange; rw [hne]; simp [insertChange, publish_change, ins, hs.1, del]
-  obtain ⟨hcf, hco⟩ := change_with_errors s f errs he
-  let s1 := evChange s f errs
-  let s2 := pushAll s1 new
-  have hs2saved : s2.saved = new := pushAll_saved s1 new
-  have hkey : ∀ g, hasKey s2.change g = (f == g) := by
-    intro g
-    rw [show hasKey s2.change g = hasKey s1.change g from pushAll_change s1 new g, hc1]
-    simp [hasKey]
-  have hview : ∀ g, g ≠ f → s2.client g = shown new g := by
-    intro g hg
-    apply pushAll_file s1 new hn (by rw [hs1]; exact hf) g
-    · rw [hco g hg, hs1]; exact hs.2 g
-    · rw [hc1]; simp [hasKey]; exact fun h => hg h.symm
-  -- saveOne f
-  show Settled (saveOne s2 f) ∧ (saveOne s2 f).saved = new
-  have hdel : del s2.change f = [] := by
-    have : s2.change = [(f, errs)] := by
-      have h1 : (new.foldl (pushStep s1.saved) (s1.saved.foldl (clearStep new) s1)).change = s1.change := by
-        rw [(push_fold_fields _ _ _).2, (clear_fold_fields _ _ _).2]
-      show (pushAll s1 new).change = _
-      unfold pushAll
-      simp only
-      split
-      · have : ∀ (l : EMap) (t : St), (l.foldl rechangeStep t).change = t.change := by
-          intro l; induction l with
-          | nil => intro t; rfl
-          | cons p r ih => intro t; simp only [List.foldl]; rw [ih]; rfl
-        rw [this]; exact h1.trans hc1
-      · exact h1.trans hc1
-    rw [this]; simp [del]
-  unfold saveOne
-  simp only [hdel]
-  cases h : lk s2.saved f with
-  | none =>
-    refine ⟨⟨rfl, ?_⟩, hs2saved⟩
-    intro g
-    show (publish { s2 with change := [] } f []).client g = shown s2.saved g
-    rw [publish_client, hs2saved]
-    by_cases hg : g = f
-    · subst hg; rw [hs2saved] at h; simp [shown, h]
-    · have : (g == f) = false := by simpa using hg
-      simp [this]; exact hview g hg
-  | some e =>
-    have hp : pushFile { s2 with change := [] } f false = publish { s2 with change := [] } f e := by
-      unfold pushFile; simp [h]
-    rw [hp]
-    refine ⟨⟨rfl, ?_⟩, hs2saved⟩
-    intro g
-    show (publish { s2 with change := [] } f e).client g = shown s2.saved g
-    rw [publish_client, hs2saved]
-    by_cases hg : g = f
-    · subst hg; rw [hs2saved] at h; simp [shown, h]
-    · have : (g == f) = false := by simpa using hg
-      simp [this]; exact hview g hg
-#print axioms edit_save_cycle
-
-/-- what saveOne does to the view: the file shows its full saved list, nothing else moves -/
-theorem saveOne_view (t : St) (f : File) :
-    (saveOne t f).saved = t.saved ∧ (saveOne t f).change = del t.change f ∧
-    (saveOne t f).client f = shown t.saved f ∧ ∀ g, g ≠ f → (saveOne t f).client g = t.client g := by
-  unfold saveOne
-  simp only
-  cases h : lk t.saved f with
-  | none =>
-    refine ⟨rfl, rfl, by simp [publish_client, shown, h], ?_⟩
-    intro g hg
-    have : (g == f) = false := by simpa using hg
-    simp [publish_client, this]
-  | some e =>
-    have hp : pushFile { t with change := del t.change f } f false = publish { t with change := del t.change f } f e := by
-      unfold pushFile; simp [h]
-    simp only [hp]
-    refine ⟨rfl, rfl, by simp [publish_client, shown, h], ?_⟩
-    intro g hg
-    have : (g == f) = false := by simpa using hg
-    simp [publish_client, this]
-
-/-- closing a buffer with unsaved edits (with or without syntax errors) restores the settled view:
-    every file, the closed one included, shows what a fresh server shows for the saved map -/
-theorem edit_close_cycle (s : St) (f : File) (errs : List Err) (hs : Settled s) :
-    Settled (evClose (evChange s f errs) f true) ∧ (evClose (evChange s f errs) f true).saved = s.saved := by
-  have hsaved : (evChange s f errs).saved = s.saved := by
-    unfold evChange
-    split
-    · rw [clearChange_noop s f hs.1]
-      unfold clearSyntax
-      split
-      · rfl
-      · rename_i e h; unfold pushFile; simp [publish_saved, h]
-    · rfl
-  have hother : ∀ g, g ≠ f → (evChange s f errs).client g = s.client g := by
-    by_cases he : errs = []
-    · subst he; exact (change_without_errors s f hs).2
-    · exact (change_with_errors s f errs he).2
-  have hdel : del (evChange s f errs).change f = [] := by
-    unfold evChange
-    split
-    · rw [clearChange_noop s f hs.1]
-      have : (clearSyntax s f).change = [] := by
-        unfold clearSyntax
-        split
-        · exact hs.1
-        · rename_i e h; unfold pushFile; simp [publish_saved, publish_change, h, hs.1]
-      rw [this]; rfl
-    · simp [insertChange, publish_change, ins, hs.1, del]
-  obtain ⟨v1, v2, v3, v4⟩ := saveOne_view (evChange s f errs) f
-  show Settled (saveOne (evChange s f errs) f) ∧ (saveOne (evChange s f errs) f).saved = s.saved
-  refine ⟨⟨by rw [v2, hdel], ?_⟩, v1.trans hsaved⟩
-  intro g
-  rw [v1, hsaved]
-  by_cases hg : g = f
-  · subst hg; rw [v3, hsaved]
-  · rw [v4 g hg, hother g hg]; exact hs.2 g
-#print axioms edit_close_cycle
-
-/-- the empty start state is settled (a fresh server before any diagnostics) and the premises of the
-    theorems above are satisfiable -/
-example : Settled {} ∧ NodupKeys [("a.lua", [⟨1, "e", ""⟩])] ∧ Faithful [] [("a.lua", [⟨1, "e", ""⟩])] := by
-  refine ⟨⟨rfl, fun _ => rfl⟩, by simp [NodupKeys], ?_⟩
-  intro f o e h; simp [lk] at h
-
-/-! ### where the property fails in the model (and, by the correspondence, in the code) -/
+/-! ### where the property failed in the model (and, by the correspondence, in the code) before the repairs -/
 
 def w1 : Err := ⟨2, "w1", ""⟩
 def syn : Err := ⟨1, "syntax", ""⟩
 
-/-- K1: f.lua has an unsaved buffer with a syntax error; saving g.lua re-publishes everything and,
-    because f.lua's saved list changed (its warning is gone), f.lua is cleared although its buffer still
-    has the syntax error -/
-theorem dirty_view_overridden :
+/-- K1 as it was (`pushAllOld`: the unsaved errors were re-shown only when the new map was empty): f.lua has an
+    unsaved buffer with a syntax error; saving g.lua re-publishes everything and, because f.lua's saved list changed
+    (its warning is gone), f.lua is cleared although its buffer still has the syntax error -/
+theorem dirty_view_overridden_before :
+    let s0 : St := { saved := [("f.lua", [w1])], client := fun g => if g == "f.lua" then [w1] else [] }
+    let s1 := evChange s0 "f.lua" [syn]
+    let s2 := saveOne (pushAllOld s1 [("g.lua", [w1])]) "g.lua"
+    s1.client "f.lua" = [syn] ∧ hasKey s2.change "f.lua" = true ∧ s2.client "f.lua" = [] := by
+  decide
+#print axioms dirty_view_overridden_before
+
+/-- K1 repaired: in the same history the buffer's syntax error stays; and a buffer WITHOUT syntax errors keeps
+    hiding the saved syntax errors when another file is saved -/
+theorem dirty_view_kept :
     let s0 : St := { saved := [("f.lua", [w1])], client := fun g => if g == "f.lua" then [w1] else [] }
     let s1 := evChange s0 "f.lua" [syn]
     let s2 := evSave s1 "g.lua" [("g.lua", [w1])]
-    s1.client "f.lua" = [syn] ∧ hasKey s2.change "f.lua" = true ∧ s2.client "f.lua" = [] := by
+    let t0 : St := { saved := [("f.lua", [syn, w1])], client := fun g => if g == "f.lua" then [syn, w1] else [] }
+    let t1 := evChange t0 "f.lua" []
+    let t2 := evSave t1 "g.lua" [("f.lua", [syn, w1]), ("g.lua", [w1])]
+    s2.client "f.lua" = [syn] ∧ t1.client "f.lua" = [w1] ∧ t2.client "f.lua" = [w1] := by
   decide
-#print axioms dirty_view_overridden
+#print axioms dirty_view_kept
 
 /-- K2 as it was (IsSameErrList comparing ToString() only, `sameErrsOld`): the two lists look the same although
     the related location moved -/
@@ -672,24 +1065,49 @@ theorem extra_republished :
   decide
 #print axioms extra_republished
 
-/-! ### the unconditional statements (every pair of maps is `faithful`) -/
+/-! ### corollaries for settled states (the statements the earlier versions of this file proved one by one) -/
 
 theorem save_fresh (s : St) (f : File) (new : EMap) (hs : Settled s) (hn : NodupKeys new) :
-    Settled (evSave s f new) ∧ (evSave s f new).saved = new := settled_save s f new hs hn (faithful _ _)
+    Settled (evSave s f new) ∧ (evSave s f new).saved = new := by
+  have hi := evSave_inv s f new hn (settled_inv s hs).1
+  obtain ⟨_, p2, p3, p4, _⟩ := saveOne_spec (pushAll s new) f
+  obtain ⟨q1, q2, q3⟩ := pushAll_fields s new
+  have hc : (evSave s f new).change = [] := by
+    show (saveOne (pushAll s new) f).change = []
+    rw [p3, q2, hs.1]; rfl
+  have hh : (evSave s f new).hidden = [] := by
+    show (saveOne (pushAll s new) f).hidden = []
+    rw [p4, q3, hs.2.1]; rfl
+  exact ⟨⟨hc, hh, fresh_when_settled _ hi.1 hc hh⟩, p2.trans q1⟩
 #print axioms save_fresh
 
 theorem watched_fresh (s : St) (fs : List File) (new : EMap) (hs : Settled s) (hn : NodupKeys new) :
-    Settled (evWatched s fs new) ∧ (evWatched s fs new).saved = new := settled_watched s fs new hs hn (faithful _ _)
+    Settled (evWatched s fs new) ∧ (evWatched s fs new).saved = new := by
+  have hi := evWatched_inv s fs new hn (settled_inv s hs).1
+  obtain ⟨q1, q2, q3⟩ := pushAll_fields s new
+  have hc : (evWatched s fs new).change = [] := q2.trans hs.1
+  have hh : (evWatched s fs new).hidden = [] := q3.trans hs.2.1
+  exact ⟨⟨hc, hh, fresh_when_settled _ hi.1 hc hh⟩, q1⟩
 #print axioms watched_fresh
 
 theorem open_fresh (s : St) (f : File) (new : EMap) (hs : Settled s) (hn : NodupKeys new) :
-    Settled (evOpen s f new) ∧ (evOpen s f new).saved = new := settled_open s f new hs hn (faithful _ _)
+    Settled (evOpen s f new) ∧ (evOpen s f new).saved = new := by
+  obtain ⟨q1, q2, q3⟩ := pushAll_fields s new
+  have hnoop : evOpen s f new = pushAll s new := by
+    unfold evOpen clearChange; rw [q2, hs.1]; rfl
+  rw [hnoop]
+  exact watched_fresh s [] new hs hn
 #print axioms open_fresh
 
-theorem edit_save_fresh (s : St) (f : File) (errs : List Err) (new : EMap) (hs : Settled s) (he : errs ≠ [])
-    (hn : NodupKeys new) :
-    Settled (evSave (evChange s f errs) f new) ∧ (evSave (evChange s f errs) f new).saved = new :=
-  edit_save_cycle s f errs new hs he hn (faithful _ _)
-#print axioms edit_save_fresh
+/-- an edit whose buffer has syntax errors: the file shows exactly them, every other file is untouched -/
+theorem change_with_errors (s : St) (f : File) (errs : List Err) (he : errs ≠ []) :
+    (evChange s f errs).client f = errs ∧ ∀ g, g ≠ f → (evChange s f errs).client g = s.client g := by
+  have : errs.isEmpty = false := by cases errs <;> simp at he ⊢
+  unfold evChange
+  rw [this]
+  simp only [Bool.false_eq_true, if_false]
+  obtain ⟨p1, _, p3⟩ := insertChange_spec s f errs
+  exact ⟨p3, fun g hg => (p1 g hg).1⟩
+#print axioms change_with_errors
 
 end LuaHelper.C08
